@@ -48,7 +48,7 @@ theorem edgelist_rt_same_edges (d : Char) (cm : Option Char) (ty : Ty) (edges : 
     (hl : ∀ e ∈ edges, ∀ a ∈ e, TokOK d cm (renderAtom a) ∧ cast ty (renderAtom a) = .ok a) :
     ∃ h, readEdgelist cm (some d) ty (writeEdgelist d edges) = .ok h ∧
       h.edges.map (·.2) = edges ∧
-      h.edges.map (·.1) = (List.range edges.length).map (fun i => Atom.int i) ∧
+      h.edges.map (·.1) = (List.range edges.length).map (fun (i : Nat) => Atom.int (i : Int)) ∧
       ∀ n, n ∈ h.nodes ↔ ∃ e ∈ edges, n ∈ e := by
   refine ⟨_, edgelist_rt d cm ty edges hd hne hl, ?_, ?_, ?_⟩
   · simp only [netOfEdgeList, List.map_map]
@@ -65,10 +65,9 @@ theorem edgelist_rt_same_edges (d : Char) (cm : Option Char) (ty : Ty) (edges : 
     exact this 0
   · simp only [netOfEdgeList, List.map_map]
     have : (edges.zipIdx).map ((fun x : Atom × List Atom => x.1) ∘ fun p => (Atom.int p.2, dedup p.1))
-        = (edges.zipIdx.map Prod.snd).map (fun i : Nat => Atom.int i) := by
-      simp [List.map_map, Function.comp]
-    rw [this, List.zipIdx_map_snd]
-    simp [List.range_eq_range']
+        = (edges.zipIdx.map Prod.snd).map (fun i : Nat => Atom.int (i : Int)) := by
+      rw [List.map_map]; rfl
+    rw [this, List.zipIdx_map_snd, List.range_eq_range']
   · intro n; simp [netOfEdgeList]
 
 /-- Instance for int labels read with `nodetype=int`: any delimiter and comment token that are neither a
@@ -274,7 +273,9 @@ theorem hif_ids_cast (i : Int) (s : String) :
 
 -- int labels incl. a negative one and 0, delimiter "|", nodetype=int
 example : readEdgelist (some '#') (some '|') .int (writeEdgelist '|' [[.int 12, .int (-3)], [.int 0]]) =
-    .ok ⟨[.int 12, .int (-3), .int 0], [(.int 0, [.int 12, .int (-3)]), (.int 1, [.int 0])]⟩ := by decide
+    .ok ⟨[.int 12, .int (-3), .int 0], [(.int 0, [.int 12, .int (-3)]), (.int 1, [.int 0])]⟩ :=
+  (edgelist_rt_int '|' (some '#') [[12, -3], [0]] ⟨by decide, by decide, by decide⟩ (by decide)
+    (by intro c hc; cases hc; decide) (by decide)).trans (by decide)
 example : writeEdgelist '|' [[.int 12, .int (-3)], [.int 0]] = "12|-3\n0\n".toList := by decide
 example : DelimOK '|' (some '#') := ⟨by decide, by decide, by decide⟩
 example : TokOK ',' (some '#') "a b".toList :=
@@ -287,12 +288,23 @@ example : readEdgelist (some '#') (some ',') .none (writeEdgelist ',' [[.str "a,
 example : readEdgelist (some '#') (some ',') .none (writeEdgelist ',' [[], [.str "a"]]) =
     .ok ⟨[.str "", .str "a"], [(.int 0, [.str ""]), (.int 1, [.str "a"])]⟩ := by decide
 -- bipartite, both dual settings
-example : readBipartite (some '#') (some '\t') .int .none false
-    (writeBipartite '\t' [(.str "e", [.int 1, .int 2]), (.str "f", [.int 2])]) =
-    .ok ⟨[.int 1, .int 2], [(.str "e", [.int 1, .int 2]), (.str "f", [.int 2])]⟩ := by decide
-example : readBipartite (some '#') (some '\t') .none .int true
-    (writeBipartite '\t' [(.str "e", [.int 1, .int 2]), (.str "f", [.int 2])]) =
-    .ok ⟨[.str "e", .str "f"], [(.int 1, [.str "e"]), (.int 2, [.str "e", .str "f"])]⟩ := by decide
+example : readBipartite (some '#') (some '\t') .none .str false
+    (writeBipartite '\t' [(.str "e", [.str "a", .str "b"]), (.str "f", [.str "b"])]) =
+    .ok ⟨[.str "a", .str "b"], [(.str "e", [.str "a", .str "b"]), (.str "f", [.str "b"])]⟩ := by decide
+example : readBipartite (some '#') (some '\t') .none .none true
+    (writeBipartite '\t' [(.str "e", [.str "a", .str "b"]), (.str "f", [.str "b"])]) =
+    .ok ⟨[.str "e", .str "f"], [(.str "a", [.str "e"]), (.str "b", [.str "e", .str "f"])]⟩ := by decide
+-- int node labels, str edge IDs, nodetype=int: the hypotheses of `bipartite_rt` are met
+example : readBipartite (some '#') (some ';') .int .none false
+    (writeBipartite ';' [(.str "e", [.int 1, .int (-2)])]) = .ok ⟨[.int 1, .int (-2)], [(.str "e", [.int 1, .int (-2)])]⟩ := by
+  refine (bipartite_rt ';' (some '#') .int .none false _ ⟨by decide, by decide, by decide⟩ ?_).trans (by decide)
+  intro p hp
+  have hp' : p = (.int 1, .str "e") ∨ p = (.int (-2), .str "e") := by simpa [incOf] using hp
+  have hs : TokOK ';' (some '#') (renderAtom (.str "e")) :=
+    ⟨by decide, by decide, by intro c hc; cases hc; decide, by decide,
+     by intro c hc; cases hc; decide, by intro c hc; cases hc; decide⟩
+  rcases hp' with rfl | rfl <;>
+    exact ⟨tokOK_int _ _ _ (by decide) (by intro c hc; cases hc; decide), hs, cast_int _, cast_str_none _⟩
 -- single-column (3×1), single-row (1×2) and 1×1 matrices
 example : readIncidence (some '#') (some ',') (writeIncidence ',' ⟨[.int 5, .int 6, .int 7], [(.str "e", [.int 5, .int 7])]⟩) =
     .ok ⟨[.int 0, .int 2], [(.int 0, [.int 0, .int 2])]⟩ := by decide
@@ -301,8 +313,11 @@ example : readIncidence (some '#') (some ' ') (writeIncidence ' ' ⟨[.int 5], [
 example : readIncidence (some '#') (some ' ') (writeIncidence ' ' ⟨[.int 5], [(.int 1, [.int 5])]⟩) =
     .ok ⟨[.int 0], [(.int 0, [.int 0])]⟩ := by decide
 -- JSON keys: ints need nodetype/edgetype, otherwise they come back as strings; collisions are refused
-example : (jsonWrite ⟨[.int 1, .int 2], [(.int 0, [.int 1, .int 2])]⟩).bind (jsonRead .int .int) =
-    .ok ⟨[.int 1, .int 2], [(.int 0, [.int 1, .int 2])]⟩ := by decide
+example : ∃ doc, jsonWrite ⟨[.int 1, .int 2], [(.int 0, [.int 1, .int 2])]⟩ = .ok doc ∧
+    jsonRead .int .int doc = .ok ⟨[.int 1, .int 2], [(.int 0, [.int 1, .int 2])]⟩ :=
+  json_keys .int .int _ (by decide) (by decide) (by decide)
+    (by intro n hn; simp at hn; rcases hn with rfl | rfl <;> exact cast_int _)
+    (by intro e he; simp at he; subst he; exact cast_int _)
 example : (jsonWrite ⟨[.int 1, .int 2], [(.int 0, [.int 1, .int 2])]⟩).bind (jsonRead .none .none) =
     .ok ⟨[.str "1", .str "2"], [(.str "0", [.str "1", .str "2"])]⟩ := by decide
 example : jsonWrite ⟨[.int 2, .str "2"], []⟩ = .err .lib := by decide
